@@ -236,7 +236,7 @@ func keyHash(s string) string {
 }
 
 // Finish writes replay files and the evidence file, prints the verdict lines
-// and returns the process exit code (0 held, 1 violated, 2 inconclusive).
+// and returns the process exit code (0 held, 1 violated, 4 inconclusive; bin/check maps 4 to 2, since 2 is what the Go runtime uses for fatal errors).
 func (r *Run) Finish() int {
 	r.mu.Lock()
 	defer r.mu.Unlock()
@@ -352,7 +352,7 @@ func (r *Run) Finish() int {
 		for _, s := range r.inconclusive {
 			fmt.Printf("INCONCLUSIVE property=%s %s\n", r.Prop, oneLine(s))
 		}
-		return 2
+		return 4
 	}
 	return 0
 }
